@@ -1,16 +1,391 @@
 package main
 
 import (
+	"encoding/json"
+	"fmt"
+	"os"
+	"path/filepath"
+	"sort"
+	"strings"
 	"time"
 )
+
+var pendingProp string
 
 func (e *Engine) verifyFunctionFor(key, prop string) (*Unit, error) {
 	pendingProp = prop
 	return e.verifyFunction(key)
 }
 
-var pendingProp string
+var safetyKinds = map[string]bool{
+	"index": true, "nil-deref": true, "slice-bounds": true, "div-zero": true, "shift-count": true,
+	"type-assert": true, "nil-map-write": true, "makeslice": true, "no-panic": true, "nil-chan": true,
+	"send-closed": true, "decreases": true, "termination": true,
+}
+
+// propertyRoots: functions that carry a clause tagged with the property.
+func (e *Engine) propertyRoots(prop string) []string {
+	var out []string
+	for _, k := range e.lib.sortedContractKeys() {
+		ct := e.lib.Contracts[k]
+		if ct.Trusted || strings.HasPrefix(k, "invoke ") {
+			continue
+		}
+		tagged := false
+		chk := func(cs []*Clause) {
+			for _, c := range cs {
+				if contains(c.Props, prop) {
+					tagged = true
+				}
+				for _, d := range propDeps[prop] {
+					if contains(c.Props, d) {
+						tagged = true
+					}
+				}
+			}
+		}
+		chk(ct.Ensures)
+		chk(ct.Requires)
+		for _, l := range ct.Loops {
+			chk(l.Invs)
+		}
+		if tagged {
+			out = append(out, k)
+		}
+	}
+	for tk, ts := range e.lib.Types {
+		for _, inv := range ts.Invs {
+			if contains(inv.Props, prop) {
+				// all pointer-receiver methods of the type with contracts
+				for _, k := range e.lib.sortedContractKeys() {
+					if strings.HasPrefix(k, "(*"+tk+")") && !contains(out, k) {
+						out = append(out, k)
+					}
+				}
+			}
+		}
+	}
+	if extra, ok := extraRoots[prop]; ok {
+		for _, k := range extra {
+			if !contains(out, k) {
+				out = append(out, k)
+			}
+		}
+	}
+	sort.Strings(out)
+	return out
+}
+
+// extraRoots: whole-cone properties list their entry points explicitly (filled by property definitions).
+var extraRoots = map[string][]string{}
+
+type Finding struct {
+	Prop  string
+	Oblig string // obligation name prefix (without the #n) or full name
+	Text  string
+	Fixed bool
+}
+
+func loadKnown(path string) []Finding {
+	data, err := os.ReadFile(path)
+	if err != nil {
+		return nil
+	}
+	var out []Finding
+	for _, line := range strings.Split(string(data), "\n") {
+		line = strings.TrimSpace(line)
+		if line == "" || strings.HasPrefix(line, "#") {
+			continue
+		}
+		f := Finding{}
+		if strings.HasPrefix(line, "fixed:") {
+			f.Fixed = true
+			line = strings.TrimSpace(strings.TrimPrefix(line, "fixed:"))
+		} else if strings.HasPrefix(line, "known:") {
+			line = strings.TrimSpace(strings.TrimPrefix(line, "known:"))
+		}
+		// property=<id> obligation=<name> <text>
+		for _, fld := range strings.Fields(line) {
+			if strings.HasPrefix(fld, "property=") {
+				f.Prop = strings.TrimPrefix(fld, "property=")
+			} else if strings.HasPrefix(fld, "obligation=") {
+				f.Oblig = strings.TrimPrefix(fld, "obligation=")
+			}
+		}
+		f.Text = line
+		out = append(out, f)
+	}
+	return out
+}
+
+type sample struct {
+	Name   string `json:"obligation"`
+	Kind   string `json:"kind"`
+	Clause string `json:"clause"`
+	Where  string `json:"where,omitempty"`
+	Result string `json:"answer"`
+	Solver string `json:"solver"`
+	Ms     int64  `json:"ms"`
+	Bytes  int    `json:"smt_bytes,omitempty"`
+}
 
 func runProperty(eng *Engine, prop, tier string, opts solveOpts, evidence, replayDir, known string, verbose bool, start time.Time) int {
-	return 2
+	roots := eng.propertyRoots(prop)
+	structural := eng.structuralObligations(prop)
+	if len(roots) == 0 && len(structural) == 0 {
+		fmt.Fprintf(os.Stderr, "govc: no contract clause is tagged with %s\n", prop)
+		return 2
+	}
+	units := map[string]*Unit{}
+	var order []string
+	work := append([]string(nil), roots...)
+	var loadErr []string
+	for len(work) > 0 {
+		k := work[0]
+		work = work[1:]
+		if _, done := units[k]; done {
+			continue
+		}
+		u, err := eng.verifyFunctionFor(k, prop)
+		if err != nil {
+			loadErr = append(loadErr, err.Error())
+			units[k] = nil
+			continue
+		}
+		units[k] = u
+		order = append(order, k)
+		for _, c := range sortedKeys(u.called) {
+			if _, done := units[c]; !done {
+				work = append(work, c)
+			}
+		}
+	}
+	if len(loadErr) > 0 {
+		for _, e := range loadErr {
+			fmt.Fprintln(os.Stderr, "govc: contract error:", e)
+		}
+		// a contract that no longer binds/evaluates against the code is an undischarged obligation
+	}
+	var obls []*Oblig
+	assumed := map[string]bool{}
+	inlined := map[string]bool{}
+	modes := map[string]string{}
+	for _, k := range order {
+		u := units[k]
+		mode := "int"
+		if u.so.bv {
+			mode = "bv"
+		}
+		modes[shortKey(k)] = mode
+		for a := range u.assumed {
+			assumed[a] = true
+		}
+		for a := range u.inlined {
+			inlined[shortKey(a)] = true
+		}
+		for _, o := range u.obls {
+			if safetyKinds[o.Kind] && prop != "C07" {
+				continue
+			}
+			if o.Kind == "close-once" && !(prop == "C02" || prop == "C09" || prop == "C07") {
+				continue
+			}
+			if !u.active(o.Props) {
+				continue
+			}
+			obls = append(obls, o)
+		}
+	}
+	obls = append(obls, structural...)
+	obls = append(obls, eng.bridgeObligations(prop)...)
+	dischargeAll(obls, opts)
+
+	// verdicts
+	findings := loadKnown(known)
+	var failed []*Oblig
+	kindCount := map[string]int{}
+	solverWins := map[string]int{}
+	var solverMs int64
+	discharged := 0
+	vacuity := map[string]string{}
+	for _, o := range obls {
+		kindCount[o.Kind]++
+		solverMs += o.Ms
+		if o.ok() {
+			discharged++
+			solverWins[o.Solver]++
+		} else {
+			failed = append(failed, o)
+		}
+		if o.ExpectSat {
+			vacuity[o.Name] = o.Result
+		}
+	}
+	exit := 0
+	os.MkdirAll(filepath.Join(replayDir, prop), 0o755)
+	var violationLines []string
+	nKnown := 0
+	for _, ce := range loadErr {
+		path := filepath.Join(replayDir, prop, "contract-error.json")
+		writeJSON(path, map[string]interface{}{"property": prop, "obligation": "contract-binding", "error": ce,
+			"explanation": "a contract no longer binds to or evaluates against the code; its obligations are undischarged"})
+		violationLines = append(violationLines, fmt.Sprintf("VIOLATION property=%s replay=%s no-failing-input-found", prop, path))
+		exit = 1
+	}
+	for _, o := range failed {
+		isKnown := false
+		for _, f := range findings {
+			if !f.Fixed && f.Prop == prop && (f.Oblig == o.Name || strings.HasPrefix(o.Name, f.Oblig+"#") || f.Oblig == baseName(o.Name)) {
+				fmt.Printf("KNOWN-FINDING: property=%s obligation=%s %s\n", prop, o.Name, f.Text)
+				isKnown = true
+				nKnown++
+			}
+		}
+		if isKnown {
+			continue
+		}
+		path := filepath.Join(replayDir, prop, mangle(o.Name)+".json")
+		rep := map[string]interface{}{
+			"property": prop, "obligation": o.Name, "kind": o.Kind, "function": o.Fn, "clause": o.Clause, "where": o.Pos,
+			"answer": o.Result, "solver": o.Solver, "solver_output": trunc2(o.Model, 6000), "detail": o.Detail,
+		}
+		if !o.Structural {
+			q := o.query(opts.timeoutSec)
+			smtPath := filepath.Join(replayDir, prop, mangle(o.Name)+".smt2")
+			os.WriteFile(smtPath, []byte(q), 0o644)
+			rep["smt_file"] = smtPath
+		}
+		found := eng.tryReplay(prop, o, rep, replayDir)
+		writeJSON(path, rep)
+		if found {
+			violationLines = append(violationLines, fmt.Sprintf("VIOLATION property=%s replay=%s", prop, path))
+		} else {
+			violationLines = append(violationLines, fmt.Sprintf("VIOLATION property=%s replay=%s no-failing-input-found", prop, path))
+		}
+		exit = 1
+	}
+	wall := time.Since(start).Seconds()
+
+	// evidence
+	var samples []sample
+	pick := func(o *Oblig) {
+		s := sample{Name: o.Name, Kind: o.Kind, Clause: trunc(o.Clause, 300), Where: o.Pos, Result: o.Result, Solver: o.Solver, Ms: o.Ms}
+		if !o.Structural {
+			s.Bytes = len(o.query(opts.timeoutSec))
+		}
+		samples = append(samples, s)
+	}
+	seenKinds := map[string]bool{}
+	for _, o := range obls {
+		if len(o.Props) > 0 && !seenKinds["tag:"+o.Kind] && len(samples) < 4 {
+			seenKinds["tag:"+o.Kind] = true
+			pick(o)
+		}
+	}
+	for _, o := range obls {
+		if !seenKinds[o.Kind] && len(samples) < 8 {
+			seenKinds[o.Kind] = true
+			pick(o)
+		}
+	}
+	var slow []sample
+	sorted := append([]*Oblig(nil), obls...)
+	sort.Slice(sorted, func(i, j int) bool { return sorted[i].Ms > sorted[j].Ms })
+	for i := 0; i < len(sorted) && i < 3; i++ {
+		o := sorted[i]
+		slow = append(slow, sample{Name: o.Name, Kind: o.Kind, Clause: trunc(o.Clause, 120), Result: o.Result, Solver: o.Solver, Ms: o.Ms})
+	}
+	var fns []string
+	for _, k := range order {
+		fns = append(fns, shortKey(k))
+	}
+	var failedNames []string
+	for _, o := range failed {
+		failedNames = append(failedNames, o.Name+" ["+o.Result+"]")
+	}
+	trusted := []string{
+		"govc VC generator (this repository, /verif/govc) over golang.org/x/tools/go/ssa v0.29.0",
+		"SMT solvers z3 4.8.12, z3 5.1.0 (z3-new), cvc5 1.0.x: first definite answer wins (thorough tier: all answers must agree)",
+		"64-bit int/uint (amd64/arm64); Go 1.23 SSA semantics",
+	}
+	var assumedList []string
+	for _, a := range sortedKeys(assumed) {
+		assumedList = append(assumedList, a)
+	}
+	assumedList = append(assumedList, propertyAssumptions[prop]...)
+	assumedList = append(assumedList,
+		"partial correctness: clauses hold whenever the function returns normally; absence of panics and termination are decided under C07",
+		"machine integers are treated as mathematical integers only after a no-wrap obligation has been discharged for the operation (int mode); bv-mode functions use exact bit-vector semantics")
+	cov := map[string]interface{}{
+		"obligations":           len(obls),
+		"discharged":            discharged,
+		"checker_cmd":           fmt.Sprintf("/verif/bin/check %s %s", prop, tier),
+		"trusted_base":          trusted,
+		"functions_under_contract": fns,
+		"functions_inlined":     sortedKeys(inlined),
+		"arithmetic_mode":       modes,
+		"obligations_by_kind":   kindCount,
+		"solver_wins":           solverWins,
+		"solver_time_ms":        solverMs,
+		"slowest":               slow,
+		"samples":               samples,
+		"vacuity_checks":        vacuity,
+		"failed":                failedNames,
+		"known_findings_matched": nKnown,
+		"contract_files":        eng.lib.Files,
+		"bounded":               boundedNotes[prop],
+	}
+	ev := map[string]interface{}{
+		"property_id": prop,
+		"tier":        tier,
+		"seed":        seedFromEnv(),
+		"level":       "proof",
+		"coverage":    cov,
+		"assumptions": assumedList,
+		"wall_s":      wall,
+		"violations":  len(violationLines),
+	}
+	if evidence != "" {
+		os.MkdirAll(filepath.Dir(evidence), 0o755)
+		writeJSON(evidence, ev)
+	}
+	if verbose || exit != 0 {
+		for _, o := range failed {
+			fmt.Printf("FAILED %s [%s %s] %s :: %s\n", o.Name, o.Result, o.Solver, o.Pos, trunc(o.Clause, 160))
+		}
+	}
+	fmt.Printf("%s %s: %d obligations, %d discharged, %d functions under contract, %.1fs\n", prop, tier, len(obls), discharged, len(order), wall)
+	for _, l := range violationLines {
+		fmt.Println(l)
+	}
+	return exit
 }
+
+func baseName(n string) string {
+	if i := strings.LastIndex(n, "#"); i >= 0 {
+		return n[:i]
+	}
+	return n
+}
+
+func trunc2(s string, n int) string {
+	if len(s) > n {
+		return s[:n] + "...[truncated]"
+	}
+	return s
+}
+
+func writeJSON(path string, v interface{}) {
+	data, _ := json.MarshalIndent(v, "", " ")
+	os.WriteFile(path, append(data, '\n'), 0o644)
+}
+
+func seedFromEnv() int {
+	var s int
+	fmt.Sscanf(os.Getenv("VERIF_SEED"), "%d", &s)
+	return s
+}
+
+// per-property notes
+var propertyAssumptions = map[string][]string{}
+var boundedNotes = map[string][]string{}
